@@ -8,8 +8,8 @@ Import ListNotations.
 Open Scope Z_scope.
 
 Section Trace.
-  Context {S : Type} (step : S -> event -> S) (out : S -> Z).
-  Fixpoint trace (s : S) (gs : list (list event)) : list Z :=
+  Context {S E : Type} (step : S -> E -> S) (out : S -> Z).
+  Fixpoint trace (s : S) (gs : list (list E)) : list Z :=
     match gs with
     | [] => []
     | g :: r => let s' := fold_left step g s in out s' :: trace s' r
@@ -58,11 +58,33 @@ Definition nz (n : nat) : Z := Z.of_nat n.
 Definition in_expr (sh : shape) (inv : bool) (a : Z) : Z := if inv then Z.lnot (norm sh a) else a.
 Definition expr_event (sh : shape) (inv : bool) (e : event) : event :=
   match e with Ein v => Ein (in_expr sh inv v) | _ => e end.
-Definition k_ff (w : Z) (sg : bool) (stages : nat) (init : option Z) (inv : bool) (a0 : Z)
+Definition k_ff (w : Z) (sg : bool) (ow : Z) (osg : bool) (stages : nat) (init : option Z) (inv : bool) (a0 : Z)
                 (gs : list (list event)) : list Z :=
   let sh := Sh w sg in
+  let osh := Sh ow osg in
   let s0 := ff_start sh stages init (in_expr sh inv a0) in
-  1 :: pack (w + 1) (2 ^ w) (ff_out s0 :: trace (ff_step sh) ff_out s0 (map (map (expr_event sh inv)) gs)).
+  1 :: pack (ow + 1) (2 ^ ow) (ff_out_as osh s0 :: trace (ff_step sh) (ff_out_as osh) s0 (map (map (expr_event sh inv)) gs)).
+
+(* FFSynchronizer(..., reset_less=rl) in an output domain whose rst is driven by the testbench
+   (async = ClockDomain(async_reset=True)).  Step kinds of this family: 0 none, 1 output edge,
+   4 inactive edges, 5 rst:=1, 6 rst:=0, 7 rst:=1 in the same ctx.set as the edge, 2 rst:=0 in the
+   same ctx.set as the edge *)
+Definition gr (kind : Z) : list revent :=
+  match kind with
+  | 1 => [Rev Eo] | 4 => [Rev Enop] | 5 => [Rrst true] | 6 => [Rrst false]
+  | 7 => [Rrst true; Rev Eo] | 2 => [Rrst false; Rev Eo] | _ => []
+  end.
+Definition dec_rstep (off c : Z) : list revent :=
+  let f := Z.shiftr c 3 in
+  (if f =? 0 then [] else [Rev (Ein (f - off))]) ++ gr (Z.land c 7).
+Definition UR (fb off : Z) (n : nat) (chunks : list Z) : list (list revent) :=
+  map (dec_rstep off) (firstn n (flat_map (unchunk (per_chunk (3 + fb)) (3 + fb)) chunks)).
+Definition k_ffr (w : Z) (sg : bool) (stages : nat) (init : option Z) (async rl : bool) (i0 : Z)
+                 (gs : list (list revent)) : list Z :=
+  let sh := Sh w sg in
+  let s0 := ffr_start sh stages init i0 in
+  let out := fun s => ff_out (fr_ff s) in
+  1 :: pack (w + 1) (2 ^ w) (out s0 :: trace (ffr_step sh init async rl) out s0 gs).
 
 (* AsyncFFSynchronizer(i, o, stages, async_edge) *)
 Definition k_af (pos : bool) (stages : nat) (i0 : Z) (gs : list (list event)) : list Z :=
@@ -74,7 +96,11 @@ Definition k_rs (stages : nat) (i0 : Z) (gs : list (list event)) : list Z := k_a
 
 (* PulseSynchronizer(i_domain, o_domain, stages): the number of input pulses, the number of output
    cycles with o = 1, the monitor slot, then the packed trace of o *)
-Definition k_ps (stages : nat) (i0 : Z) (gs : list (list event)) : list Z :=
+Definition same_dom (same : bool) (e : event) : event :=
+  if same then match e with Eo | Ei => Eb | _ => e end else e.
+(* same = i_domain and o_domain are the same domain: every active edge is an edge of both *)
+Definition k_ps (same : bool) (stages : nat) (i0 : Z) (gs0 : list (list event)) : list Z :=
+  let gs := map (map (same_dom same)) gs0 in
   let s0 := ps_start stages i0 in
   let evs := concat gs in
   nz (in_pulses (ps_i s0) evs) :: nz (out_cycles s0 evs) :: 1 ::
@@ -85,9 +111,10 @@ Definition k_ps (stages : nat) (i0 : Z) (gs : list (list event)) : list Z :=
 Definition k_sep (i0 : Z) (gs : list (list event)) : list Z :=
   [b2l (separated (Z.odd i0) false (concat gs))].
 
-(* RequirePosedge: needs = the component contains RequirePosedge(o_domain); is_pos = clk_edge of the
-   domain; [1] = elaborates, [0; 1] = DomainRequirementFailed *)
-Definition k_posedge (needs is_pos : bool) : list Z := if needs && negb is_pos then [0; 1] else [1].
+(* RequirePosedge: comp = 0 ff, 1 af, 2 rs, 3 ps; is_pos = clk_edge of the output domain;
+   [1] = elaborates, [0; 1] = DomainRequirementFailed *)
+Definition k_posedge (comp : Z) (is_pos : bool) : list Z :=
+  if requires_posedge comp && negb is_pos then [0; 1] else [1].
 
 (* constructor: stages check *)
 Definition k_stages (stages : Z) : list Z := [check_stages stages].
